@@ -39,9 +39,9 @@ var cells = []cell{
 	{`<div>x</div title="{{.}}">after<i>z</i>`, "", nil, false},
 	{`<p>x</p data-x='{{.}}'><i>z</i>`, "", nil, false},
 	{`<a>x</a href="{{.}}"><i>z</i>`, "", nil, false},
-	{`<iframe src{{/*c*/}}doc="{{.}}" lang=en></iframe>`, "", nil, false},
+	{`<iframe src{{/*c*/}}doc="{{.}}" lang=en></iframe>`, "srcdoc", []string{"HTML"}, false}, // one attribute name for a browser, and (since K87) for the engine
 	{`<div alt{{/*c*/}}x="{{.}}">z</div>`, "", nil, false},
-	{`<img src{{/*c*/}}set='{{.}}'>`, "", nil, false},
+	{`<img src{{/*c*/}}set='{{.}}'>`, "srcset", nil, false},
 	{`<a/title="{{.}}">z</a>`, "", nil, false},
 	{`<p>{{.}}</p><i>z</i>`, "", []string{"HTML"}, false},
 	{`<div>a{{.}}b</div><i>z</i>`, "", []string{"HTML"}, false},
